@@ -268,6 +268,40 @@ def check_site(d, M, mode="abs"):
                     if w not in labels:
                         out.append(("C15:category-list-incomplete", "%s does not list %r" % (path, w)))
                         break
+                # every entry of the list leads, by ordinary URL resolution, to a page of the site
+                for x in page.links:
+                    if x[0] != "a" or x[3].strip() not in want_labels:
+                        continue
+                    t = gen_site.resolve(path, x[2])
+                    if t is None or (t not in got and t.rstrip("/") + "/index.html" not in got):
+                        out.append(("C15:category-entry-leads-nowhere", "%s: entry %r has link %r which resolves to %r" % (path, x[3].strip(), x[2], t)))
+                        break
+        return out
+    finally:
+        shutil.rmtree(scratch, ignore_errors=True)
+
+
+def check_decimal_consistency():
+    """a decimal written once in the prose and once as a quantity is the same number on every page: prose and tables are scaled alike"""
+    import re
+    from recipe_grid.static_site.website import generate_static_site
+    out = []
+    scratch = gen_site.scratch_root()
+    try:
+        src = scratch / "book"
+        src.mkdir()
+        vals = ["0.603", "1.15", "2.675", "0.1", "33.3", "0.045", "7.25"]
+        (src / "dough.md").write_text("# Dough for 3\n\nUse " + " and ".join("{%s}" % v for v in vals) + ".\n\n" + "".join("    %s kg z%d\n" % (v, i) for i, v in enumerate(vals)))
+        (src / "other.md").write_text("# Other for 7\n\nUse " + " and ".join("{%s}" % v for v in vals) + ".\n\n" + "".join("    %s kg z%d\n" % (v, i) for i, v in enumerate(vals)))
+        generate_static_site(src, scratch / "out", 12)
+        for stem in ("dough", "other"):
+            for n in range(1, 13):
+                page = (scratch / "out" / ("serves%d" % n) / (stem + ".html")).read_text()
+                shown = [v for v in scaled_values(page)]
+                prose, table = shown[:len(vals)], [t.split()[0] for t in shown[len(vals):2 * len(vals)]]
+                if prose != table:
+                    out.append(("C15:page-not-scaled-by-n-over-servings", "/serves%d/%s.html: the prose shows %r where the table shows %r for the same written numbers" % (n, stem, prose, table)))
+                    return out
         return out
     finally:
         shutil.rmtree(scratch, ignore_errors=True)
@@ -303,6 +337,8 @@ def fixed_cases():
                raw="# Big for 2\n\nCount {18014398509481985} grains.\n\n    9007199254740993 g sand\n    sift(sand, {36028797018963969} times)\n")
     yield dict(name="root", readme=rd("Party food for 20"), recipes=[r("dip.md", "Dip", 2), big], assets=[],
                subdirs=[dict(name="more", readme=rd("Buffet serves 12"), recipes=[r("x.md", "X", None)], subdirs=[], assets=[])]), 3
+    # names that read as a URL scheme when they begin a relative link (category listings and menus must still lead to the page)
+    yield sub("root", [r("curry:mild.md", "Mild curry", 2), r("a:b.md", "AB", None)], [sub("sides:hot", [r("rice:plain.md", "Rice", 2), r("naan.md", "Naan", 1)])]), 2
     # recipes that point at one another and at a local file, in another directory too
     potato = dict(file="potato.md", title="Potato soup", servings=2, links=[("Lleek", "leek.md", ("recipe", "soups/leek.md")), ("Ipic", "pic.png", ("asset", "soups/pic.png"))])
     leek = dict(file="leek.md", title="Leek soup", servings=3, links=[("Lbread", "../bread.md", ("recipe", "bread.md")), ("Lroot", "/soups/potato.md", ("recipe", "soups/potato.md"))])
@@ -313,6 +349,9 @@ def fixed_cases():
 
 def oracle(run):
     rng = run.rng
+    run.case(("decimal-consistency",), True, kind="decimal-consistency")
+    for sig, detail in check_decimal_consistency():
+        run.violate(sig, detail, {"decimal_consistency": True})
     fixed = [(d, M, mode) for d, M in fixed_cases() for mode in gen_site.PATH_MODES]
     for i in range(run.budget(25, 600) + len(fixed)):
         d, M, mode = fixed[i] if i < len(fixed) else (gen_case(rng, collide=(i == len(fixed))) + (gen_site.PATH_MODES[i % 3],))
@@ -326,6 +365,11 @@ def oracle(run):
 
 def replay(run, obj):
     r = obj["replay"]
+    if r.get("decimal_consistency"):
+        res = check_decimal_consistency()
+        for x in res:
+            print(*x)
+        return bool(res)
     res = check_site(c14.d_unjson(r["site"]), r["M"], r.get("mode", "abs"))
     for x in res:
         print(*x)
